@@ -12,6 +12,10 @@ BASE_NOTE = ("Trusted: Lean 4.33 kernel; axioms limited to propext/Classical.cho
              "the Lean compiler for the driver. ")
 
 HOLD = {}
+SRC_PROPS: list = []
+SRC_THEOREMS = ("src_html_escape, src_normalize_text, src_add (HTML.__add__/__radd__), src_normalize_attr_name/_value, src_setitem, "
+                "src_update (TagAttrDict.update), src_render_tag / src_render_list (Tag/TagList.get_html_string, all trees, by "
+                "induction on nesting depth), and the theorems of the area files")
 
 
 def load_claims():
@@ -33,6 +37,20 @@ def load_claims():
             continue
         m = dict(mod.MANIFEST)
         m["note"] = BASE_NOTE + m.get("note", "")
+        src = sorted(os.path.basename(f)[:-5] for f in getattr(mod, "PROP_FILES", []) if os.path.basename(f).startswith("Src"))
+        if src:
+            # properties with a source tie (DESIGN §14): say so in the claim
+            m["text"] += (" SOURCE TIE: the functions this property's model mirrors are, in addition, regenerated from the source text "
+                          "of /repo on every run by harness/pytranslate.py (statement by statement, into Lean functions over a universe "
+                          "of Python values) and proved equal to the model for all inputs (Props/" + ", ".join(src) + ".lean: "
+                          + SRC_THEOREMS + "); the regenerated functions are also run against the real ones on generated values "
+                          "(`src` op). A function that leaves the translatable fragment makes its tie theorems vacuous (recorded in the "
+                          "evidence under translator_notes); the correspondence check then ties it alone.")
+            m["technique"] += " + source-text translation of the mirrored functions with Lean tie theorems (model = translated source, all inputs)"
+            m["note"] += (" Additionally trusted for the source tie: harness/pytranslate.py (Python source text -> Lean do-notation) and "
+                          "lean/HtmlVerif/Py/{Val,Prim}.lean (stated semantics of the Python fragment: isinstance, str methods, dict/list "
+                          "operations, the binary-operator protocol for HTML), validated against the running interpreter on every run.")
+            SRC_PROPS.append(pid)
         claims[pid] = m
     return claims
 
@@ -71,6 +89,8 @@ def main():
         "engines": [
             {"name": "lean-model", "path": "lean/", "serves_properties": sorted(CLAIMS), "kind_free_text": "Lean 4 model + theorems (lake project HtmlVerif), compiled line-protocol driver htdriver"},
             {"name": "translator", "path": "harness/translate.py", "serves_properties": sorted(CLAIMS), "kind_free_text": "ast-based regeneration of tables (void names, escape tables, tag wrappers) on every run"},
+            {"name": "source-translator", "path": "harness/pytranslate.py", "serves_properties": sorted(SRC_PROPS),
+             "kind_free_text": "statement-by-statement regeneration of selected Python functions as Lean functions (Generated/Src.lean) on every run; tie theorems Props/Src*.lean"},
             {"name": "correspondence", "path": "harness/", "serves_properties": sorted(CLAIMS), "kind_free_text": "differential check model vs implementation over a wire protocol; failing-input search"},
         ],
         "checks": checks,
